@@ -270,11 +270,21 @@ def scheduled(case, cap, src):
     amap = case["map"]  # {"a": idx, ...}
     steps = case["steps"]
     nw = max(x[0] for x in case["schedule"])
-    # fresh sequential results
-    for name, idx in sorted(amap.items()):
-        ev.append(["begin", 0, idx, "", cap.size(), ""])
-        ev.append(["end", 0, idx, run_op(ops[idx]), cap.size(), tables_digest()])
-    quantum = {idx: max(1, measure_lines(src, ops[idx]) // (steps + 1)) for idx in set(amap.values())}
+    seqfirst = case.get("seqfirst", 1)
+
+    def sequential():
+        for name, idx in sorted(amap.items()):
+            ev.append(["begin", 0, idx, "", cap.size(), ""])
+            ev.append(["end", 0, idx, run_op(ops[idx]), cap.size(), tables_digest()])
+
+    if seqfirst:
+        # reference results first (detects state damaged by the interleaving)
+        sequential()
+        quantum = {idx: max(1, measure_lines(src, ops[idx]) // (steps + 1)) for idx in set(amap.values())}
+    else:
+        # the interleaving is the very FIRST use of the library in this interpreter (lazy initialisation, first-use races);
+        # the reference results are taken afterwards.  Nothing may be executed beforehand, so the quantum is given, not measured.
+        quantum = {idx: case.get("quantum", 25) for idx in set(amap.values())}
     ls = LineScheduler(src, nw)
     ls.start()
     cur = {}
@@ -292,6 +302,8 @@ def scheduled(case, cap, src):
                 ev.append(["end", w, idx, r, cap.size(), tables_digest()])
     finally:
         ls.shutdown()
+    if not seqfirst:
+        sequential()
     return {"t0": t0, "events": ev}
 
 
@@ -301,9 +313,15 @@ def free_threads(case, cap):
     t0 = tables_digest()
     ops = case["ops"]
     idxs = case["probes"]
-    for idx in idxs:
-        ev.append(["begin", 0, idx, "", cap.size(), ""])
-        ev.append(["end", 0, idx, run_op(ops[idx]), cap.size(), tables_digest()])
+    seqfirst = case.get("seqfirst", 1)
+
+    def sequential():
+        for idx in idxs:
+            ev.append(["begin", 0, idx, "", cap.size(), ""])
+            ev.append(["end", 0, idx, run_op(ops[idx]), cap.size(), tables_digest()])
+
+    if seqfirst:
+        sequential()
     old = sys.getswitchinterval()
     sys.setswitchinterval(1e-6)
     lock = threading.Lock()
@@ -327,6 +345,8 @@ def free_threads(case, cap):
     for w, idx, r in out:
         ev.append(["begin", w, idx, "", 0, ""])
         ev.append(["end", w, idx, r, 0, ""])
+    if not seqfirst:
+        sequential()
     ev.append(["begin", 0, idxs[0], "", cap.size(), ""])
     ev.append(["end", 0, idxs[0], run_op(ops[idxs[0]]), cap.size(), tables_digest()])
     return {"t0": t0, "events": ev}
